@@ -512,6 +512,24 @@ func (h *harness) run(loggers *memLoggers) {
 				return
 			}
 			t0 = time.Now()
+		} else if cs.DoubleStart {
+			gate := make(chan struct{})
+			c1 := goCall(func() error { <-gate; return p.Start() })
+			c2 := goCall(func() error { <-gate; return p.Start() })
+			close(gate)
+			for _, c := range []*asyncCall{c1, c2} {
+				select {
+				case <-c.done:
+				case <-time.After(boundReady):
+					res.Errors = append(res.Errors, "a Start() call did not return")
+					return
+				}
+			}
+			if c1.err != nil && c2.err != nil {
+				res.StartErr = c1.err.Error()
+				res.Vacuous = "both Start calls failed: nothing was running"
+				return
+			}
 		} else if err := p.Start(); err != nil {
 			res.StartErr = err.Error()
 			res.Vacuous = "Start failed (context already over): nothing was running"
